@@ -109,6 +109,10 @@ def e2_replay(v, m):
     return concrete_outcome(v, m) in ("return", "raise:ValidationError")
 
 
+PATTERN_POOL = ["(?<=a)b", "(?<!a)b", "(?=a)a", "(?!b).", "(?P<n>a)(?P=n)", "(?i)A", "[\\w-]+", "a{2,3}", "\\d+", "^\\s*$", "(a|b)*c", "\\u0041", "[^\\W\\d_]", "a*?b", "(?:ab)+", "\\bword\\b", "[a-c&&]", "\\.", "^$", "a|"]
+EXTRA_KEYWORDS = ["self", "args", "kwargs", "cls", "element", "elements", "mode", "additional", "name", "value", "property_", "schema", "state", "title", "$id", "x-extension", "readOnly"]
+
+
 NAME_POOL = ["", "\x00", "\x01", "\x7f", "\x85", "\ue000", "\uffff", "\u0378", "\ud800", "a\x00b", " ", "\t", "\xa0", "\U0001d518", "\U0010ffff", "$", "-", "_", "1", "\u00b2", "class", "__dict__", "a b", "\u2028", "\u200d"]
 
 
@@ -195,7 +199,7 @@ def harnesses(ctx) -> List[H]:
                  'pre = ("12:", "12:30:", "2020-01-01T00:00:", "1-", "T", "2020-", "1e", "0.")[p]\nc = ("9", ".")[i]\nreturn total(parse_s({"format": "date-time"}), pre + c * n) and total(parse_s({"format": "uuid"}), pre + c * n)',
                  timeout=600, group="format", tier="thorough", covers="run lengths up to 32 of '9' / '.' after 8 date/time-like prefixes"))
     core = [SPECIAL_NAMES.index(n) for n in ("__dict__", "__weakref__", "__module__", "__slots__", "__class__", "__doc__", "__init__", "_dict", "properties", "default", "validators", "__annotations__")]
-    hs.append(mk("c10_special_property_names_core", "j: int, x: int", [f"0 <= j < {len(core)}"], f"return special_name_ok({core!r}[concretize_int(j, 0, {len(core) - 1})], x, True)", timeout=200, group="names",
+    hs.append(mk("c10_special_property_names_core", "j: int, x: int", [f"0 <= j < {len(core)}"], f"return special_name_ok({core!r}[concretize_int(j, 0, {len(core) - 1})], x, True)", timeout=500, group="names",
                  covers="the 12 most hazardous special names as property names of a model class"))
     for typed in (True, False):
       hs.append(mk(f"c10_special_property_names_{'typed' if typed else 'untyped'}", "i: int, x: int", [f"0 <= i < {len(SPECIAL_NAMES)}"], f"return special_name_ok(concretize_int(i, 0, {len(SPECIAL_NAMES) - 1}), x, {typed})", timeout=900, group="names", tier="thorough",
@@ -218,6 +222,17 @@ def harnesses(ctx) -> List[H]:
         hs.append(mk(f"c10_parse_{name}", hargs, pre, f"return parse_total({S}) and doc_total({S})", timeout=400, group="parse",
                      tier="thorough" if name in ("names", "autotitle", "untyped_names", "title_only", "ignored_keywords", "object_in_positions") else "quick",
                      expect="unknown" if name in ("names", "autotitle", "untyped_names", "object_in_positions", "title_only", "ignored_keywords") else "confirmed", covers=S))
+    hs.append(mk("c10_pattern_pool", "i: int, v: str", [f"0 <= i < {len(PATTERN_POOL)}", "len(v) <= 1"],
+                 f'P = PATTERN_POOL[concretize_int(i, 0, {len(PATTERN_POOL) - 1})]\nS = {{"pattern": P, "patternProperties": {{P: {{"type": "integer"}}}}, "propertyNames": {{"pattern": P}}, "items": {{"pattern": P}}}}\nreturn parse_total(S) and total(parse_s(S), v) and total(parse_s(S), {{"ab": "x", "a": 1}}) and total(parse_s(S), ["ab", "aab", "word", "A", ""])',
+                 timeout=300, group="patterns", covers="20 Python-valid regex constructs (lookaround, named groups, flags, classes, lazy quantifiers) as pattern / patternProperties / propertyNames"))
+    hs.append(mk("c10_parse_extra_keywords", "i: int, j: int", [f"0 <= i < {len(EXTRA_KEYWORDS)}", "0 <= j < 8"],
+                 f'k = EXTRA_KEYWORDS[concretize_int(i, 0, {len(EXTRA_KEYWORDS) - 1})]\nT = (None, "string", "integer", "array", "object", "null", ["integer", "null"], "number")[concretize_int(j, 0, 7)]\nS = {{k: 1, "title": "T", "anyOf": [{{k: "x"}}]}}\nif T is not None: S["type"] = T\nreturn parse_total(S) and doc_total(S)',
+                 timeout=200, group="parse", covers="unknown / annotation keywords whose names coincide with Python parameter names, on every element type"))
+    hs.append(mk("c10_parse_bool_documents", "b: bool, c: bool", [], 'return doc_total(b) and doc_total({"definitions": {"d": c, "e": {"items": b}}, "items": c}) and parse_total(b)', timeout=60, group="parse",
+                 covers="boolean schemas as whole documents and as definitions"))
+    hs.append(mk("c10_bigint_messages", "n: int, neg: bool", ["4290 <= n <= 4310"] + ctx.excl("C10-int-str-limit", "n < 4300"),
+                 'x = 10 ** concretize_int(n, 4290, 4310)\nx = -x if neg else x\nreturn total(parse_s({"maximum": 1, "minimum": -1}), x) and total(parse_s({"enum": [1]}), [x]) and total(parse_s({"type": "object", "title": "T", "properties": {"a": {"const": 0}}}), {"a": x})',
+                 timeout=200, group="numbers", message_stub=False, covers="integers around the 4300-digit int->str limit with REAL message formatting"))
     hs.append(mk("c10_parse_name_pool", "i: int, typed: bool", [f"0 <= i < {len(NAME_POOL)}"],
                  'a, b = NAME_POOL[i], NAME_POOL[(7 * i + 3) % len(NAME_POOL)]\nS = {"properties": {a: {"type": "integer"}, b: True}, "required": [b, a + b], "dependencies": {a: [b]}, "default": {a: b}, "enum": [{a: [b]}]}\nif typed: S.update({"type": "object", "title": "T" + a})\nreturn parse_total(S) and doc_total(S) and total(parse_s(S) if parse_ok(S) else parse_s(True), {a: 1, b: a})',
                  timeout=300, group="parse", covers="property / required / dependency names from a pool of unusual strings (unnamed code points, controls, private use, surrogates, non-BMP, empty)"))
@@ -300,6 +315,21 @@ def _demo_dunder_names():
                 and total(parse_s({"type": "object", "title": "T", "properties": {"__weakref__": {}}}), {"__weakref__": 1}))
 
 
-DEMOS = {"C10-multipleof-overflow": _demo_multipleof_overflow, "C10-datetime-overflow": _demo_datetime_overflow,
+def _demo_self_keyword():
+    return not parse_total({"type": "string", "self": 1})
+
+
+def _demo_bool_document():
+    return not doc_total(True)
+
+
+def _demo_int_str_limit():
+    from vf.common import parse_s
+
+    return not total(parse_s({"maximum": 1}), 10 ** 4301)
+
+
+DEMOS = {"C10-self-keyword": _demo_self_keyword, "C10-bool-document": _demo_bool_document, "C10-int-str-limit": _demo_int_str_limit,
+         "C10-multipleof-overflow": _demo_multipleof_overflow, "C10-datetime-overflow": _demo_datetime_overflow,
          "C10-number-float-overflow": _demo_number_overflow, "C10-datetime-decimal": _demo_datetime_decimal,
          "C10-dunder-property-names": _demo_dunder_names}
